@@ -126,6 +126,7 @@ def response_recipes():
     # hop-by-hop headers given by the caller (a WSGI application must not send them; PEP 3333)
     for name in ("Connection", "Keep-Alive", "Transfer-Encoding", "TE", "Upgrade", "Trailers", "Proxy-Authenticate"):
         add("PlainText(caller gives the hop-by-hop header %s)" % name, lambda i, e, name=name: pkg(i).PlainTextResponse("h", 200, {name: "x", "X-Ok": "1"}), 0)
+    add("File(caller gives Connection and Keep-Alive)", lambda i, e: pkg(i).FileResponse(e.small, {"Connection": "close", "Keep-Alive": "timeout=5", "X-Ok": "1"}), None)
     add("Stream(caller gives Connection)", lambda i, e: pkg(i).StreamResponse(stream(i, [b"a", b"b"]), 200, {"Connection": "keep-alive"}), 2)
 
     def attr_cookie(i, e, **kw):
